@@ -12,12 +12,15 @@ import (
 )
 
 func (u *UseCase) DeleteOld(ctx context.Context) error {
+	sequence.Horizon.Lock()
 	tx, err := u.txRepo.Oldest(ctx)
 	if errors.Is(err, fs_db.ErrTxNotFound) {
 		tx = model.Transaction{
 			Seq: sequence.Next(),
 		}
-	} else if err != nil {
+	}
+	sequence.Horizon.Unlock()
+	if err != nil && !errors.Is(err, fs_db.ErrTxNotFound) {
 		return fmt.Errorf("tx repo oldest: %w", err)
 	}
 
